@@ -50,6 +50,9 @@ NUM = [-1, 0, 2, 3, 0.1, 0.5, 2.5, None, 'MISSING']
 TXT = ['a', 'b', 'c', None, '']
 # small magnitudes: true variances far below 1e-9
 TINY = [0.0001, 0.00015, 0.00003, 1e-05, 0, None]
+# a large offset with a small spread: the spread must not be lost (the
+# tolerance below allows for the rounding of a one-pass sum of squares)
+OFFSET = [1000000, 1000001, 1000002, 1000000.5, 999999.25, None]
 STATS = ('count', 'total', 'min', 'max', 'mean', 'variance', 'variance-n',
          'standard-deviation', 'standard-deviation-n', 'median')
 CASE_CPU_SECONDS = 120.0
@@ -92,8 +95,9 @@ def cases(tier):
     for lo in range(0, total, 100):
         yield {'dom': 'order', 'lo': lo, 'hi': min(total, lo + 100)}
     maxn = 5 if tier == 'quick' else 7
-    for dom, alpha in (('num', NUM), ('txt', TXT), ('tiny', TINY)):
-        for n in range(1, (maxn if dom != 'tiny' else maxn - 1) + 1):
+    for dom, alpha in (('num', NUM), ('txt', TXT), ('tiny', TINY),
+                       ('offset', OFFSET)):
+        for n in range(1, (maxn if dom in ('num', 'txt') else maxn - 1) + 1):
             if n <= 2:
                 yield {'dom': dom, 'n': n, 'pre': []}
             else:
@@ -224,7 +228,8 @@ def run_alias(res, case):
 
 
 def lists(case):
-    alpha = {'num': NUM, 'txt': TXT, 'tiny': TINY}[case['dom']]
+    alpha = {'num': NUM, 'txt': TXT, 'tiny': TINY,
+             'offset': OFFSET}[case['dom']]
     pre = [alpha[i] for i in case['pre']]
     for rest in itertools.product(alpha, repeat=case['n'] - len(pre)):
         yield pre + list(rest)
@@ -298,7 +303,17 @@ def judge(res, values, mapping, out):
             tol = 1e-12
             if stat.startswith('standard') and varn == 0:
                 tol = 1e-6
-            if not close(g, exact[stat], tol):
+            # a sum of squares of numbers of magnitude M carries a rounding
+            # error of a few ulp(M * M), whatever the spread is
+            big = max(abs(v) for v in data)
+            vtol = 64 * 2.3e-16 * big * big if big > 1000 else 0.0
+            if vtol and stat.startswith('variance'):
+                tol += vtol * 2
+            if vtol and stat.startswith('standard'):
+                ok = close(g * g, float(exact[stat]) ** 2, tol + vtol * 2)
+            else:
+                ok = close(g, exact[stat], tol)
+            if not ok:
                 bad(stat, g, float(exact[stat]))
         for stat, exp in (('min', srt[0]), ('max', srt[-1])):
             try:
